@@ -296,6 +296,7 @@ def all_specs(L):
 
 
 def run_task(task, acc):
+    quick = env.tier() == 'quick'
     if task['kind'] == 'pad':
         pool = explore.std_pool(task, acc.seed, acc)
         for h, v in pool.items:
@@ -308,6 +309,8 @@ def run_task(task, acc):
                 for width in range(0, L + 5):
                     for fill in FILLS:
                         for inplace in (False, True):
+                            if inplace and quick and fill not in (' ', ':'):
+                                continue      # quick tier: in-place variants with two of the six fills
                             for extend in (True, False):
                                 case = {'kind': 'pad', 'hist': h, 'op': [kind, width, fill, inplace, extend, False]}
                                 acc.current = case
@@ -317,6 +320,8 @@ def run_task(task, acc):
                                     acc.validated += 1
                                 for clause, detail in bad:
                                     acc.violation(clause, case, detail, sig=clause + ':' + kind + (':ext' if extend else ':noext'))
+                        if quick and fill not in ('*', '+'):
+                            continue
                         case = {'kind': 'pad', 'hist': h, 'op': [kind, width, fill, False, True, True]}
                         acc.transitions += 1
                         bad = check_pad(h, text, cells, kind, width, fill, False, True, twin=True)
